@@ -179,6 +179,11 @@ class C17(Prop):
             hist.append([qi, rs(shared.theoretical(Ex(phis[qi])))])
         # default 25 sweeps in double precision at the largest phi
         fl = MessagePassing(self._graph(case)).theoretical(float(phis[-1]))
+        # ... and along a ladder of phi up to exactly 1 (bounds and monotonicity hold for every phi and every sweep count)
+        ladder = [0.0, 0.6, 0.99, 1.0]
+        one = MessagePassing(self._graph(case), iterations=12)
+        fl_ladder = [float(one.theoretical(x)) for x in ladder]
+        fl_ladder5 = [float(MessagePassing(self._graph(case), iterations=5).theoretical(x)) for x in ladder]
         # the real label parser against the generating structure
         mpm = MessagePassingMixin("motif cover", G)
         parse_ok = True
@@ -189,7 +194,7 @@ class C17(Prop):
                     or mpm.get_motif_topology(s) != len(lab["verts"])):
                 parse_ok = False
         return {"fresh": fresh, "history": hist, "float25": fl, "edge_order": edge_order, "node_order": list(G.nodes()),
-                "parse_ok": parse_ok}
+                "parse_ok": parse_ok, "float_ladder": [ladder, fl_ladder, fl_ladder5]}
 
     def request(self, case, obs):
         return {"op": "ping"}
@@ -237,6 +242,17 @@ class C17(Prop):
                 break
         if not (0 - 1e-12 <= obs["float25"] <= 1 + 1e-12):
             f.append("range: default 25-sweep value outside [0, 1]")
+        if obs.get("float_ladder"):
+            ladder, *runs = obs["float_ladder"]
+            for sweeps, vals_f in zip((12, 5), runs):
+                if any(not (-1e-12 <= v <= 1 + 1e-12) for v in vals_f):
+                    f.append(f"range: {sweeps}-sweep double-precision value outside [0, 1]: {vals_f}")
+                elif abs(vals_f[0]) > 1e-12:
+                    f.append(f"zero: {sweeps}-sweep double-precision value at phi = 0 is {vals_f[0]}")
+                elif any(b < a - 1e-9 for a, b in zip(vals_f, vals_f[1:])):
+                    k = next(k for k, (a, b) in enumerate(zip(vals_f, vals_f[1:])) if b < a - 1e-9)
+                    f.append(f"monotone: {sweeps}-sweep double-precision value drops from {vals_f[k]} at phi = {ladder[k]} to "
+                             f"{vals_f[k + 1]} at phi = {ladder[k + 1]}")
         if not obs["parse_ok"]:
             f.append("labels: cover label parser disagrees with the label's content")
         return f
